@@ -61,10 +61,62 @@ def conditions(ctx):
         fo = find_outcome(lf)
         z = conn.cl_zero_truth(lf)
         big = conn.size_exceeded_truth(lf)
+        if True:
+            # the path's tests taken together (a range test `(1..=limit).contains(&n)` says n != 0 and n <= limit): contradictory
+            # paths are no paths, and what they entail about the length counts
+            from ..lin import Lin, State
+            from ..panics import Tr
+            from ..core import subterms as _sub
+            st_ = State()
+            tr_ = Tr(ctx.facts, fn, st_)
+            nterm = None
+            for e in lf.events:
+                if e[0] == "cond":
+                    tr_.assume_cond(e[3], e[4])
+                    if nterm is None:
+                        for s_ in _sub(e[3]):
+                            if isinstance(s_, tuple) and s_ and is_call(s_, "common::headers::Headers::content_length") and conn.pending_req(s_):
+                                nterm = s_
+                                break
+            if nterm is not None:
+                st_.add_le(tr_.lin(nterm).scale(-1))      # an unsigned length
+            st_.sharpen()
+            if st_.inconsistent():
+                continue
+            # a range test found false: v < lo or v > hi -- the path is infeasible when the other tests refute both
+            refuted = False
+            for e in lf.events:
+                if e[0] != "cond" or truth(e[4]) is not False:
+                    continue
+                x_ = look(e[3])
+                if not (is_call(x_, "contains") and len(x_[2]) == 2):
+                    continue
+                r_ = look(x_[2][0])
+                if r_[0] == "call" and last_seg(r_[1]) == "new" and "RangeInclusive" in r_[1] and len(r_[2]) == 2:
+                    r_ = ("agg", "std::ops::RangeInclusive", "RangeInclusive", tuple(r_[2]))
+                if not (r_[0] == "agg" and r_[1].split("<")[0] in ("std::ops::Range", "std::ops::RangeInclusive") and len(r_[3]) == 2):
+                    continue
+                v_, lo_, hi_ = tr_.lin(x_[2][1]), tr_.lin(r_[3][0]), tr_.lin(r_[3][1])
+                below = st_.copy()
+                below.add_le(v_ - lo_ + Lin.const(1))
+                above = st_.copy()
+                above.add_le(hi_ - v_ + Lin.const(1 if "Inclusive" in r_[1] else 0))
+                below.sharpen()
+                above.sharpen()
+                if below.inconsistent() and above.inconsistent():
+                    refuted = True
+            if refuted:
+                continue
+            if z is None and nterm is not None:
+                N_ = tr_.lin(nterm)
+                z = True if st_.entails_eq(N_) else False if st_.entails_le(Lin.const(1) - N_) else None
         exp = conn.atom_truth(lf, conn.is_expect)
         should = fo == "some0" and z is False and big is False and exp is True
         rk = ret_kind(lf)
         key = "fo=%s,len0=%s,too-big=%s,expect=%s" % (fo, z, big, exp)
+        if fo == "some0" and z is False and big is False and rk and rk[0] == "Ok":
+            # a body is awaited: whether a Continue is owed depends on the expectation alone, so it must have been consulted
+            ctx.ob("R13.1", "expect-consulted|%s" % key, exp is not None, "at the end of the headers of a request with 0 < length <= limit the path asks headers.expect() (a path that skips the question cannot queue the Continue when it is owed)", fn.loc(lf.bb))
         if should:
             seen_true += 1
             if rk and rk[0] == "Ok":
